@@ -64,7 +64,7 @@ ANCHORS = {
 }
 # pre-fix trees (reverse of the fix: commits) each property's check must fire on
 PREFIX_OF = {"C03": ["prefix_01", "prefix_03"], "C04": ["prefix_02", "prefix_14"], "C01": ["prefix_03", "prefix_04"], "C05": ["prefix_04"], "C14": ["prefix_05"],
-             "C17": ["prefix_06", "prefix_13"], "C07": ["prefix_07", "prefix_08", "prefix_12", "prefix_18"], "C15": ["prefix_09", "prefix_11", "prefix_15", "prefix_17"], "C16": ["prefix_10", "prefix_13"], "C09": ["prefix_13"], "C11": ["prefix_16"]}
+             "C17": ["prefix_06", "prefix_13"], "C07": ["prefix_07", "prefix_08", "prefix_12", "prefix_18"], "C15": ["prefix_09", "prefix_11", "prefix_15", "prefix_17"], "C16": ["prefix_10", "prefix_13"], "C09": ["prefix_13", "prefix_19"], "C11": ["prefix_16"]}
 # seeded changes from other properties' sub-agents that this property's check is also expected to catch
 ALSO = {"C01": ["C03_b", "C05_a"], "C03": ["C12_b"], "C16": ["C14_a"]}
 # seeded changes known to be out of reach of the property's own check (documented in DESIGN.md): not required to fire
